@@ -77,7 +77,10 @@ def make_scenario(spec, seed, idx):
             continue
         variants.append({'via': 'api', 'cwd': cwd, 'main_abs': mabs, 'inc_abs': iabs, 'compress': comp})
     for _ in range(4):
-        variants.append({'via': 'cli', 'cwd': r.choice(CWDS), 'main_abs': r.random() < 0.5, 'inc_abs': r.random() < 0.5, 'compress': r.random() < 0.5})
+        variants.append({'via': 'cli', 'cwd': r.choice(CWDS), 'main_abs': r.random() < 0.5, 'inc_abs': r.random() < 0.5, 'compress': r.random() < 0.5,
+                         'dotdot': r.random() < 0.3})
+    for _ in range(3):
+        variants.append({'via': 'api', 'cwd': r.choice(CWDS), 'main_abs': r.random() < 0.5, 'inc_abs': r.random() < 0.5, 'compress': r.random() < 0.5, 'dotdot': True})
     return {'tree': tree, 'variants': variants}
 
 
@@ -94,7 +97,12 @@ def outcome_key(out):
 def run_variant(files, tree, v, log):
     dirs = list(tree['dirs']) + [v['cwd']]
     inc = [spell(d, v['cwd'], v['inc_abs']) for d in tree['inc_dirs']]
-    main = spell(tree['main'], v['cwd'], v['main_abs'])
+    mpath = tree['main']
+    if v.get('dotdot'):
+        # the same file reached through a directory and back (every component exists)
+        d = posixpath.dirname(mpath)
+        mpath = d + '/../' + posixpath.basename(d) + '/' + posixpath.basename(mpath)
+    main = mpath if v['main_abs'] else posixpath.join(posixpath.relpath(posixpath.dirname(tree['main']), v['cwd']), '..', posixpath.basename(posixpath.dirname(tree['main'])), posixpath.basename(mpath)) if v.get('dotdot') else spell(tree['main'], v['cwd'], v['main_abs'])
     if v['via'] == 'api':
         fs = asmsim.make_fs(files, dirs, cwd=v['cwd'])
         return asmsim.run_api(fs, {'target': main, 'compress': v['compress'], 'include_dirs': inc}, log)
